@@ -893,10 +893,12 @@ where
             // dereferencing the cell pointer should be safe as well.
             unsafe {
                 let cell = self.item_at_offset(offset as u64);
-                let cell_ref = CellRef::from_raw(cell);
-                let size = cell_ref.total_size();
+                let size = CellRef::from_raw(cell).total_size();
                 destination_offset -= size as usize;
-                self.write_item_to_offset(destination_offset as u64, cell_ref);
+                // A cell that slides by less than its own size overlaps its old position: the bytes must be
+                // moved, not copied through a reference into the page that is being overwritten.
+                let dest = self.item_at_offset(destination_offset as u64);
+                std::ptr::copy(cell.cast::<u8>().as_ptr(), dest.cast::<u8>().as_ptr(), size);
             }
             self.slot_array_mut()[i] = destination_offset as u16;
         }
